@@ -640,7 +640,7 @@ def case_term(scn, res):
             gs.append(q.capp("mkTrig", c_task(nb, b), q.cbool(limited), c_task(nb, a)))
     except (ValueError, KeyError):
         return None
-    return f"(let e := {env} in (e, {q.clist(ks)}, {q.clist(gs)}))"
+    return f"(let e := {env} in (e, ({q.clist(ks)} : list ckpt), ({q.clist(gs)} : list trig)))"
 
 
 # ---------------------------------------------------------------------------
